@@ -1,4 +1,5 @@
 mod c01;
+mod c04;
 mod cjs;
 mod compile;
 mod den;
@@ -16,6 +17,7 @@ fn check_by_id(id: &str) -> Option<Arc<dyn Check>> {
     Some(match id {
         "C01" => Arc::new(c01::C01),
         "C03" => Arc::new(cjs::C03),
+        "C04" => Arc::new(c04::C04),
         "C11" => Arc::new(cjs::C11),
         "C12" => Arc::new(cjs::C12),
         _ => return None,
